@@ -14,6 +14,47 @@ COMMON_NOTE = (
 
 # id -> (level text, extra note, technique, design_ref)
 CLAIMED = {
+    "C01": (
+        "Rocq theorems over the executable Gallina model of control_loop.py's reducer (Model/Engine.v): per step "
+        "|in_progress| <= num_workers, worker ids distinct and in [0,num_workers) is an invariant of every tick of "
+        "every kind for every retry-policy oracle (induction over arbitrary tick histories), holds for fresh and "
+        "deserialized states, is re-established by rewind_in_progress/rebuild; the 'no free id' IndexError branch is "
+        "dead; every CommandRunWorker (first run, retry, waiter replay, collect re-run) names a slot held in the "
+        "resulting in_progress, and a slot is released only by the step-result tick of that slot. Tied to the code by "
+        "the L1 reducer differential (real _reduce_tick/rewind/serde/rebuild vs model, exact states+commands) and an "
+        "L2 monitor on the real engine under gate-driven schedules. PARTIAL: the runner (one body per "
+        "CommandRunWorker, result tick only after the body ends) is not modelled; that link is checked by the L2 "
+        "monitor on executions, not proved.",
+        "asyncio task scheduling and the runner loop are exercised, not modelled; commands of rewind_in_progress are "
+        "covered by correspondence only.",
+        "Rocq proof (invariant by induction over tick histories, pigeonhole for slot availability) + L1/L2 correspondence",
+        "DESIGN.md §7 C01, §13"),
+    "C02": (
+        "Rocq theorems giving the exact effect of _process_add_event_tick on every step for every state with unique "
+        "step names: a step with a still-waiting matching waiter (the addressed one if a target is given) gets the "
+        "event as wait result and only replays are admitted; otherwise a step whose accepted types contain exactly "
+        "the event's type gets the attempt exactly once (queue tail or fresh worker); every other step is unchanged; "
+        "UnhandledEvent is published exactly once iff nobody takes it and it is not an InputRequiredEvent; a returned "
+        "event becomes exactly one queue command. Tied by the L1 reducer differential + the same statement evaluated "
+        "on real transitions + L2 tick-log/delivery monitor on real runs (targeted/broadcast sends). PARTIAL: the "
+        "runner's command->tick conservation (mailbox, tick buffer) is checked on executions by the L2 monitor, not "
+        "proved; 'unless the run ends first' is handled by only demanding delivery on completed runs.",
+        "Runner queues (asyncio) exercised, not modelled.",
+        "Rocq proof (exact relational characterisation, Forall2 over steps) + L1/L2 correspondence",
+        "DESIGN.md §7 C02, §13"),
+    "C10": (
+        "Rocq theorems over the reducer model: on every add-event tick each waiter is either freshly resolved "
+        "(it was neither resolved nor timed out and the event has the requested type and satisfies every requirement) "
+        "or left untouched; exactly one replay is admitted per freshly resolved waiter; a resolved or pending waiter "
+        "is never matched again however many events arrive; a timeout tick after resolution is a no-op; waiter_event "
+        "publication and timeout scheduling happen only when the waiter id is new. Tied by the L1 reducer "
+        "differential (incl. serialize/resume/rehydrate ops) + the statement on real transitions + L2 monitor on "
+        "real wait workflows (duplicate/early responses, timeouts). PARTIAL: after serialization requirements are "
+        "re-established by rehydration ticks - covered by correspondence (OSerde/OResume ops), not by a theorem; the "
+        "runner emitting one timeout tick per schedule command is exercised, not modelled.",
+        "Runner timers exercised under the virtual-time loop, not modelled.",
+        "Rocq proof (case analysis + induction over waiter lists) + L1/L2 correspondence",
+        "DESIGN.md §7 C10, §13"),
     "C07": (
         "Rocq theorems over the deep embedding of retry_policy.py (all parameters in Q, all attempt numbers, all "
         "exceptions, all seeds/draws): any/all/|/& are or/and (n-ary by induction), wait_combine/+ is the sum, every "
